@@ -83,11 +83,56 @@ fn emit(w: &W, entry: &str, structure: &str, lvl: usize, scale: f64, inputs: Vec
     println!("{}", e);
 }
 
+/// The embedding is multiplicative: the negacyclic product (formed here in floating point) of the coefficient vectors of
+/// encode(u) and encode(v) decodes to the slot-wise product u.v - for small Gaussian-integer slot vectors, in units of 2^-10.
+fn embed_mul(n: usize, rng: &mut impl Rng) {
+    let w = match world(n, vec![60, 60]) {
+        Some(w) => w,
+        None => return,
+    };
+    let slots = n / 2;
+    let scale = 2f64.powi(30);
+    let gi = |rng: &mut dyn rand::RngCore| -> Complex<f64> { Complex::new((rng.next_u32() % 9) as f64 - 4.0, (rng.next_u32() % 9) as f64 - 4.0) };
+    for rep in 0..3 {
+        let u: Vec<Complex<f64>> = (0..slots).map(|i| if rep == 0 { Complex::new(if i % 2 == 0 { 1.0 } else { -2.0 }, i as f64 % 3.0) } else { gi(rng) }).collect();
+        let v: Vec<Complex<f64>> = (0..slots).map(|_| gi(rng)).collect();
+        let out = guarded(|| {
+            let cu = w.enc.decode_polynomial_new(&w.enc.encode_c64_array_new(&u, None, scale));
+            let cv = w.enc.decode_polynomial_new(&w.enc.encode_c64_array_new(&v, None, scale));
+            let mut cw = vec![0f64; n];
+            for i in 0..n {
+                for j in 0..n {
+                    if i + j < n {
+                        cw[i + j] += cu[i] * cv[j];
+                    } else {
+                        cw[i + j - n] -= cu[i] * cv[j];
+                    }
+                }
+            }
+            w.enc.decode_new(&w.enc.encode_f64_polynomial_new(&cw, None, scale))
+        });
+        let units = |z: &Complex<f64>| -> Vec<i64> { vec![(z.re * 1024.0).round() as i64, (z.im * 1024.0).round() as i64] };
+        let exp: Vec<Vec<i64>> = u.iter().zip(v.iter()).map(|(a, b)| units(&(a * b))).collect();
+        let mut e = json!({"ev": "ckks_mul", "n": n, "exp": exp, "tol": 8});
+        match out {
+            Ok(d) => e["got"] = json!(d.iter().map(units).collect::<Vec<_>>()),
+            Err(m) => {
+                e["got"] = json!(vec![vec![1i64 << 30, 0]; slots]);
+                e["panic"] = json!(m);
+            }
+        }
+        println!("{}", e);
+    }
+}
+
 pub fn main(args: &[String]) {
     silence_panics();
     let quick = args[0] == "quick";
     let seed: u64 = args[1].parse().unwrap();
     let mut rng = rand::rngs::StdRng::seed_from_u64(seed);
+    for n in if quick { vec![4usize, 8, 64, 256] } else { vec![2usize, 4, 8, 16, 32, 64, 128, 256, 512, 1024, 2048] } {
+        embed_mul(n, &mut rng);
+    }
     let mut sets: Vec<(usize, Vec<usize>)> = vec![(2, vec![40, 40, 40]), (8, vec![40, 40, 40, 40]), (8, vec![60, 60, 60, 60, 60]), (16, vec![30, 50, 60, 40])];
     if !quick {
         sets.extend([(8, vec![60; 9]), (4, vec![20, 25, 30]), (64, vec![50, 50, 50]), (8, vec![50; 19]), (1024, vec![40, 40, 40])]);
